@@ -8,6 +8,7 @@ import (
 	"runtime/debug"
 	"sort"
 	"strconv"
+	"strings"
 	"testing"
 	"time"
 )
@@ -81,7 +82,16 @@ func TestSim(t *testing.T) {
 				// this process must give the same event log
 				again := runOne(t, GenCase(prop, tier, base, idx))
 				cr.Counters["selfcheck.repeated"] = 1
-				if again.EventHash != cr.EventHash || len(again.Violations) != 0 {
+				// (whether the race detector notices a given race can differ
+				// between two identical executions - its shadow memory keeps
+				// a bounded history - so its reports are not part of this)
+				other := 0
+				for _, v := range again.Violations {
+					if !strings.HasSuffix(v.Oracle, "/race") {
+						other++
+					}
+				}
+				if again.EventHash != cr.EventHash || other != 0 {
 					cr.Counters["selfcheck.diverged"] = 1
 				}
 			}
